@@ -116,6 +116,8 @@ structure CallRec where
   h : Nat
   iters : Nat
   ret : Nat
+  expl : Rat
+  bs : Nat
   log : List Step
   dump : List DNode
 
@@ -127,10 +129,10 @@ def pCall : P (Option CallRec) := do
       (if t == "fresh" then do let s ← P.nats; pure (true, s, 0, 0)
        else if t == "adv" then do let a ← P.nat; let k ← P.nat; pure (false, [], a, k)
        else P.fail : P (Bool × List Nat × Nat × Nat))
-    let h ← P.nat; let iters ← P.nat; let ret ← P.nat
+    let h ← P.nat; let iters ← P.nat; let ret ← P.nat; let expl ← P.q; let bs ← P.nat
     let log ← P.list pStep
     let dump ← P.list pDNode
-    pure (some { fresh, support, a, k, h, iters, ret, log, dump })
+    pure (some { fresh, support, a, k, h, iters, ret, expl, bs, log, dump })
 
 def pCalls : Nat → P (List CallRec)
   | 0 => P.fail
@@ -235,8 +237,10 @@ structure St where
   fails : List String
   sims : Nat
 
-def runCall (g : Gm) (m : Mdl) (bs : Nat) (st : St) (c : CallRec) : St :=
+def runCall (g : Gm) (mk : Rat → Mdl) (st : St) (c : CallRec) : St :=
   let cn := comp g
+  let m := mk c.expl   -- `setExploration` between calls: the bonus of this call
+  let bs := c.bs
   let rootD := findNode c.dump []
   let rootParts := match rootD with | some r => r.parts | none => []
   let rootNA := match rootD with | some r => r.acts.length | none => 0
@@ -289,17 +293,21 @@ def runCall (g : Gm) (m : Mdl) (bs : Nat) (st : St) (c : CallRec) : St :=
 def emptyTree : Tree := Tree.fresh [] 0 0
 
 def slackTol : Rat := 1 / 1000000000
+/-- the near-tie slack on UCT scores, scaled with the magnitude of the returns (rounding of `V` is relative) -/
+def slackFor (g : Gm) : Rat :=
+  let mag := if absQ g.rmin < absQ g.rmax then absQ g.rmax else absQ g.rmin
+  slackTol * (if mag < 1 then 1 else 16 * mag)
 
 def run : P String := do
   let g ← pGm
-  let expl ← P.q; let bs ← P.nat; let _ent ← P.bool
+  let _expl ← P.q; let _bs ← P.nat; let _ent ← P.bool
   let calls ← pCalls 64
   P.eof
   let st0 : St := { t := emptyTree, prev := [], budget := 0, rootStates := [], diffs := [], fails := [], sims := 0 }
-  let st := calls.foldl (runCall g (g.mdl expl none false) bs) st0
+  let st := calls.foldl (runCall g (fun e => g.mdl e none false)) st0
   -- a run the strict selection rule rejects but a 1e-9 slack on the scores accepts: rounding of V decided a near-tie
   if !st.diffs.isEmpty && st.fails.isEmpty then
-    let st2 := calls.foldl (runCall g (g.mdl expl (some slackTol) false) bs) st0
+    let st2 := calls.foldl (runCall g (fun e => g.mdl e (some (slackFor g)) false)) st0
     if st2.diffs.isEmpty && st2.fails.isEmpty then return "skip ill_conditioned_uct_tie" else pure ()
   let v : Verdict := { tag := (if st.sims == 0 then "trivial" else comp g), diffs := st.diffs, fails := st.fails }
   return v.render
@@ -364,6 +372,8 @@ structure RCallRec where
   h : Nat
   iters : Nat
   ret : Nat
+  expl : Rat
+  bs : Nat
   log : List Step
   dump : List RNode
 
@@ -375,10 +385,10 @@ def pRCall : P (Option RCallRec) := do
       (if t == "fresh" then do let s ← P.nats; pure (true, s, 0, 0)
        else if t == "adv" then do let a ← P.nat; let k ← P.nat; pure (false, [], a, k)
        else P.fail : P (Bool × List Nat × Nat × Nat))
-    let h ← P.nat; let iters ← P.nat; let ret ← P.nat
+    let h ← P.nat; let iters ← P.nat; let ret ← P.nat; let expl ← P.q; let bs ← P.nat
     let log ← P.list pStep
     let dump ← P.list pRNode
-    pure (some { fresh, support, a, k, h, iters, ret, log, dump })
+    pure (some { fresh, support, a, k, h, iters, ret, expl, bs, log, dump })
 
 def pRCalls : Nat → P (List RCallRec)
   | 0 => P.fail
@@ -446,8 +456,9 @@ def sameRNode (x y : RNode) : Bool :=
   (x.path == [] || (x.tb == y.tb && x.v == y.v)) &&
   (x.acts == y.acts || (x.path == [] && x.acts == [] && y.acts.all (fun a => a.1 == 0 && a.2 == 0)))
 
-def runRCall (g : Gm) (m : Mdl) (kk : Nat) (st : RSt) (c : RCallRec) : RSt :=
+def runRCall (g : Gm) (mk : Rat → Mdl) (kk : Nat) (st : RSt) (c : RCallRec) : RSt :=
   let cn := "rPOMCP"
+  let m := mk c.expl
   let rootD := findRNode c.dump []
   let rootNA := match rootD with | some r => r.acts.length | none => 0
   let allS := List.range g.nS
@@ -490,13 +501,13 @@ def runRCall (g : Gm) (m : Mdl) (kk : Nat) (st : RSt) (c : RCallRec) : RSt :=
 
 def rrun : P String := do
   let g ← pGm
-  let expl ← P.q; let kk ← P.nat; let ent ← P.bool
+  let _expl ← P.q; let kk ← P.nat; let ent ← P.bool
   let calls ← pRCalls 64
   P.eof
   let st0 : RSt := { t := R.RTree.fresh [] 0, prev := [], diffs := [], fails := [], sims := 0 }
-  let st := calls.foldl (runRCall g { g.mdl expl none ent with pomcp := true } kk) st0
+  let st := calls.foldl (runRCall g (fun e => { g.mdl e none ent with pomcp := true }) kk) st0
   if !st.diffs.isEmpty && st.fails.isEmpty then
-    let st2 := calls.foldl (runRCall g { g.mdl expl (some slackTol) ent with pomcp := true } kk) st0
+    let st2 := calls.foldl (runRCall g (fun e => { g.mdl e (some slackTol) ent with pomcp := true }) kk) st0
     if st2.diffs.isEmpty && st2.fails.isEmpty then return "skip ill_conditioned_uct_tie" else pure ()
   -- a value comparison decided by less than the tolerance: the double run may legitimately branch the other way
   match st.t.margin with
